@@ -138,6 +138,21 @@ fn run_inner<F: Flavour>(sc: &HistSc, verdict: Verdict, stats: &mut Stats, solo:
             Obs::Res(Err(_)) | Obs::ResVal(Err(_)) => 3,
             _ => 0,
         };
+        if model.n <= 3 && model.edges.len() <= 4 && op.is_mutation() {
+            // coverage of the small abstract space the property text singles out:
+            // (flavour, node count, creation-ordered edge shape, operation with operands)
+            let opk = match op {
+                Op::Connect { u, v, .. } => (0u64, *u, *v),
+                Op::TryConnect { u, v, .. } => (1, *u, *v),
+                Op::Disconnect { u, k, .. } => (2, *u, (*k).min(3)),
+                Op::Isolate { u, .. } => (3, *u, 0),
+                _ => (9, 0, 0),
+            };
+            stats.mark(
+                "small_state_x_operation",
+                crate::rng::mix(shape_before ^ crate::rng::fnv(sc.flavour.as_bytes()) ^ (opk.0 << 40) ^ ((opk.1 as u64) << 32) ^ ((opk.2 as u64) << 24)),
+            );
+        }
         stats.mark(
             "state_op_outcome",
             crate::rng::mix(shape_before ^ crate::rng::fnv(op.name().as_bytes()) ^ (outcome_tag << 56) ^ ((op.subject() as u64) << 48)),
@@ -250,7 +265,9 @@ fn run_inner<F: Flavour>(sc: &HistSc, verdict: Verdict, stats: &mut Stats, solo:
         stats.mark("abstract_states", model.shape_hash());
         if let Op::Connect { u, v, .. } = op {
             let l = model.out(*u).len().max(model.inn(*v).len());
-            if l >= 33 {
+            if l >= 257 {
+                stats.inc("probe_list_len_ge_257");
+            } else if l >= 33 {
                 stats.inc("probe_list_len_ge_33");
             } else if l >= 17 {
                 stats.inc("probe_list_len_ge_17");
@@ -262,6 +279,55 @@ fn run_inner<F: Flavour>(sc: &HistSc, verdict: Verdict, stats: &mut Stats, solo:
     None
 }
 
+impl Hist {
+    /// Uniform sampling of the small abstract space the properties single out (<= 3 nodes,
+    /// <= 4 live edges, every operation with every operand), so that its coverage can be stated.
+    fn generate_uniform_small(&self, rng: &mut Rng) -> HistSc {
+        let fl = self.flavours();
+        let mut flavour = fl[rng.below(fl.len())].to_string();
+        if let Some(f) = crate::runner::only_flavour() {
+            if fl.contains(&f.as_str()) {
+                flavour = f;
+            }
+        }
+        let n = *rng.pick(&[3usize, 3, 3, 3, 3, 3, 3, 2, 2, 1]);
+        let k = *rng.pick(&[0usize, 1, 2, 3, 3, 4, 4, 4, 4, 4]);
+        let mut next_edge = 100;
+        let mut initial = Vec::new();
+        for _ in 0..k {
+            next_edge += 1;
+            initial.push((rng.below(n), rng.below(n), next_edge));
+        }
+        let mut ops = Vec::new();
+        for _ in 0..rng.range(1, 3) {
+            let h = *rng.pick(&crate::model::ALL_PROV);
+            let (u, v) = (rng.below(n), rng.below(n));
+            ops.push(match rng.below(33) {
+                0..=8 => {
+                    next_edge += 1;
+                    Op::Connect { u, v, e: next_edge, h }
+                }
+                9..=17 => {
+                    next_edge += 1;
+                    Op::TryConnect { u, v, e: next_edge, h }
+                }
+                18..=29 => Op::Disconnect { u, k: if rng.chance(1, 4) { gen::NO_SUCH_KEY } else { v }, h },
+                _ => Op::Isolate { u, h },
+            });
+        }
+        HistSc {
+            flavour,
+            prios: (0..n).map(|_| rng.below(4) as u32).collect(),
+            in_graph: rng.coin(),
+            hash_seed: rng.next_u64(),
+            initial,
+            ops,
+            monitor: *rng.pick(&[0u8, 1, 2]),
+            check_every: 1,
+        }
+    }
+}
+
 impl Engine for Hist {
     type Sc = HistSc;
 
@@ -270,6 +336,9 @@ impl Engine for Hist {
     }
 
     fn generate(&self, rng: &mut Rng, tier: Tier) -> HistSc {
+        if rng.chance(1, 4) {
+            return self.generate_uniform_small(rng);
+        }
         let fl = self.flavours();
         let mut flavour = fl[rng.below(fl.len())].to_string();
         if let Some(f) = crate::runner::only_flavour() {
@@ -302,10 +371,16 @@ impl Engine for Hist {
         if rng.chance(1, 4) {
             cfg.provs = vec![crate::model::Prov::Own];
         }
+        let mut nops = nops;
         if !small && rng.chance(1, 4) {
             // long lists: most edge operations hit one pair (list lengths beyond small Vec capacities)
             cfg.hub = Some((rng.below(n), rng.below(n)));
             cfg.w = [55, 5, 22, 1, 10, 5, 2];
+            if rng.chance(1, 40) {
+                // now and then far beyond (counters narrower than usize, quadratic paths)
+                nops = rng.range(300, 700);
+                cfg.w = [70, 2, 20, 1, 4, 2, 1];
+            }
         }
         let mut ops: Vec<Op> = Vec::with_capacity(nops);
         for _ in 0..nops {
